@@ -158,8 +158,10 @@ impl Write for Writer {
             self.builder.input(buf);
             Ok(written)
         } else {
-            self.builder.input(buf);
-            self.tmpfile.write(buf)
+            // Only the bytes the file accepted are part of the content.
+            let written = self.tmpfile.write(buf)?;
+            self.builder.input(&buf[..written]);
+            Ok(written)
         }
     }
 
@@ -366,8 +368,11 @@ impl AsyncWrite for AsyncWriter {
                                 inner.last_op = Some(Operation::Write(res));
                                 State::Idle(Some(inner))
                             } else {
-                                inner.builder.input(&inner.buf);
+                                // Only the bytes the file accepted are part of the content.
                                 let res = inner.tmpfile.write(&inner.buf);
+                                if let Ok(written) = res {
+                                    inner.builder.input(&inner.buf[..written]);
+                                }
                                 inner.last_op = Some(Operation::Write(res));
                                 State::Idle(Some(inner))
                             }
